@@ -233,7 +233,8 @@ PROPS["C10"] = {
 PROPS["C19"] = {
     "module": "PropC19",
     "theorems": ["C19_threshold_is_a_cutoff", "C19_listed_iff_reaches", "C19_raising_only_removes", "C19_ordered_by_score",
-                 "C19_single_chunk", "C19_coherence_is_first_score", "C19_ordered_by_score_binary32", "C19_single_chunk_binary32"],
+                 "C19_single_chunk", "C19_coherence_is_first_score", "C19_ordered_by_score_binary32", "C19_single_chunk_binary32",
+                 "C19_validated_alphabet_languages_answer"],
     "model_targets": ["Model/Cd.vo"],
     "runs": [CD_RUN, detect_run("C19", 150, 2500)],
     "search": {"level": "cd", "args": ["--n", "8000"]},
